@@ -130,7 +130,7 @@ def section_percall():
     for cls in ("PVLParser", "ODLParser", "OmniParser"):
         assigned, err = first_assigns(cls)
         for fld in sorted(PER_CALL):
-            ok = err is None and assigned is not None and fld in assigned
+            ok = assigned is not None and fld in assigned       # only the field that is not (re)assigned first fails
             s.obl(f"pvl.parser.{cls}.parse:self.{fld}:assigned-before-use", DISCHARGED if ok else FAILED, "frame",
                   detail=err or "", function=f"pvl.parser.{cls}.parse")
     # the returned module must not alias instance state
